@@ -16,7 +16,7 @@ vars == <<n, A, B, ph>>
 
 Init == n \in 1..MaxN /\ A \in SUBSET Vals /\ B = {} /\ ph = 0
 Choose(b) == ph = 0 /\ ph' = 1 /\ B' = b /\ UNCHANGED <<n, A>>
-Next == \E b \in SUBSET Vals : Choose(b)
+Next == ph = 0 /\ \E b \in SUBSET Vals : Choose(b)
 
 VA == IView(IAdd({}, n, Asc(A)))        \* what Sequences leaves in View(): built by pushes, then sorted
 VB == IView(IAdd({}, n, Asc(B)))
